@@ -86,75 +86,152 @@ def idx_name(e):
 
 # ----------------------------------------------------------------------------- SV-REPR-GUARD
 
-def disc_test(cond):
-    """For `if` conditions: (owner, then_region, else_region) or None."""
-    c = strip_paren(cond)
-    if c["t"] == "Binary" and c["op"] in ("<=", "<", ">", ">="):
-        l, r = c["left"], c["right"]
-        if size_of(l) and is_N(r):
-            o = size_of(l)
-            return {"<=": (o, "inline", "heap"), "<": (o, "inline", None), ">": (o, "heap", "inline"),
-                    ">=": (o, None, "inline")}[c["op"]]
-        if size_of(r) and is_N(l):
-            o = size_of(r)
-            return {">=": (o, "inline", "heap"), ">": (o, "inline", None), "<": (o, "heap", "inline"),
-                    "<=": (o, None, "inline")}[c["op"]]
+L, E, G = "Less", "Equal", "Greater"
+ALL = frozenset((L, E, G))
+INLINE = frozenset((L, E))
+HEAP = frozenset((G,))
+_CMP = {"<=": (INLINE, HEAP), "<": (frozenset((L,)), frozenset((E, G))), ">": (HEAP, INLINE), ">=": (frozenset((E, G)), frozenset((L,))),
+        "==": (frozenset((E,)), frozenset((L, G))), "!=": (frozenset((L, G)), frozenset((E,)))}
+_FLIP = {"<=": ">=", "<": ">", ">": "<", ">=": "<=", "==": "==", "!=": "!="}
+
+
+def region_name(s_):
+    if s_ is None or s_ == ALL:
+        return None
+    if s_ <= INLINE:
+        return "inline"
+    if s_ <= HEAP:
+        return "heap"
+    return "mixed"
+
+
+def size_owner(e, alias):
+    """owner if e is X.size (through casts) or a local immutable copy of it"""
+    o = size_of(e)
+    if o:
+        return o
+    u = unwrap(e)
+    while u["t"] == "Cast":
+        u = unwrap(u["expr"])
+    if u["t"] == "PathExpr" and u["path"]["name"] in alias:
+        return alias[u["path"]["name"]]
     return None
 
 
-def disc_match(m):
+def disc_test(cond, alias=None):
+    """For `if` conditions: list of (owner, set when true, set when false); a comparison of the tag (or of an immutable local copy
+    of it) with N, possibly negated or one conjunct of `&&` (then only the true side is informative)."""
+    alias = alias or {}
+    c = strip_paren(cond)
+    if c["t"] == "Unary" and c["op"] == "!":
+        return [(o, f_, t_) for o, t_, f_ in disc_test(c["expr"], alias)]
+    if c["t"] == "Binary" and c["op"] == "&&":
+        return [(o, t_, ALL) for o, t_, f_ in disc_test(c["left"], alias) + disc_test(c["right"], alias)]
+    if c["t"] == "Binary" and c["op"] == "||":
+        return [(o, ALL, f_) for o, t_, f_ in disc_test(c["left"], alias) + disc_test(c["right"], alias)]
+    if c["t"] == "Binary" and c["op"] in _CMP:
+        l, r = c["left"], c["right"]
+        if size_owner(l, alias) and is_N(r):
+            t_, f_ = _CMP[c["op"]]
+            return [(size_owner(l, alias), t_, f_)]
+        if size_owner(r, alias) and is_N(l):
+            t_, f_ = _CMP[_FLIP[c["op"]]]
+            return [(size_owner(r, alias), t_, f_)]
+    return []
+
+
+def disc_match(m, alias=None):
     """For `match (X.size as usize).cmp(&N)`: owner or None."""
     e = strip_paren(m["expr"])
-    if e["t"] == "MethodCall" and e["method"] == "cmp" and size_of(e["receiver"]) and len(e["args"]) == 1 and is_N(e["args"][0]):
-        return size_of(e["receiver"])
+    if e["t"] == "MethodCall" and e["method"] == "cmp" and size_owner(e["receiver"], alias or {}) and len(e["args"]) == 1 and is_N(e["args"][0]):
+        return size_owner(e["receiver"], alias or {})
     return None
+
+
+def _diverges(blk):
+    st = blk.get("stmts") or []
+    if not st:
+        return False
+    e = st[-1].get("expr") if st[-1]["t"] == "ExprStmt" else None
+    return isinstance(e, dict) and (e.get("t") in ("Return", "Break", "Continue") or (e.get("t") == "MacroExpr" and e["mac"]["name"] in ("panic", "unreachable")))
 
 
 def run_repr_guard(res, ast):
     res.rule("SV-REPR-GUARD", "every access to data.arr / data.vec and every use of `size` as a value lies in the "
-             "branch selected by a discriminant test (size <= N, size.cmp(&N)) on the same vector",
+             "branch selected by discriminant tests (comparisons of size, or of an immutable local copy of it, with N; size.cmp(&N)) on the same vector: "
+             "the orderings {Less, Equal, Greater} still possible there must all be inline (arr, size as a length) or all heap (vec)",
              floor=40, what="payload/tag accesses")
     fns = [f for f in ast.find_fns(SV) if not is_test_item(f) and f["node"].get("body")]
     # functions whose vector argument is guaranteed inline by their (checked) call sites
     pre = {}   # fn name -> (param name, region)
     calls_in_region = []
 
-    def visit(e, regions, fn, out):
-        """regions: dict owner -> 'inline'|'heap'.  out: list of (kind, owner, node, regions)"""
+    def narrow(regions, o, s_):
+        r = dict(regions)
+        r[o] = regions.get(o, ALL) & s_
+        return r
+
+    def visit(e, regions, fn, out, alias=None):
+        """regions: dict owner -> possible orderings.  out: list of (kind, owner, node, regions)"""
+        alias = alias if alias is not None else {}
         if isinstance(e, list):
             for x in e:
-                visit(x, regions, fn, out)
+                visit(x, regions, fn, out, alias)
             return
         if not isinstance(e, dict):
             return
         t = e.get("t")
+        if t == "Block":
+            regions = dict(regions)
+            alias = dict(alias)
+            for st in e["stmts"]:
+                if st["t"] == "Local" and st.get("init") is not None and st["pat"]["t"] == "PIdent" and not st["pat"]["mut"] and not st["pat"]["by_ref"] \
+                        and size_of(st["init"]) and unwrap(st["init"])["t"] in ("Field", "Cast"):
+                    alias[st["pat"]["name"]] = size_of(st["init"])
+                    continue
+                if st["t"] == "Local" and st["pat"]["t"] == "PIdent":
+                    alias.pop(st["pat"]["name"], None)
+                visit(st, regions, fn, out, alias)
+                # a write of the tag ends the validity of its local copies and of what was learnt about it
+                for n_ in walk(st):
+                    if (n_.get("t") == "Assign" or (n_.get("t") == "Binary" and n_["op"].endswith("=") and n_["op"] not in ("==", "!=", "<=", ">="))) and size_of(n_["left"]):
+                        o_ = size_of(n_["left"])
+                        for k_ in [k_ for k_, v_ in alias.items() if v_ == o_]:
+                            del alias[k_]
+                # `if <test> { ..; return }` narrows what follows
+                x = st.get("expr") if st["t"] == "ExprStmt" else None
+                if isinstance(x, dict) and x.get("t") == "If" and x.get("else") is None and _diverges(x["then"]):
+                    for o, t_, f_ in disc_test(x["cond"], alias):
+                        regions = narrow(regions, o, f_)
+            return
         if t == "If":
-            d = disc_test(e["cond"])
+            d = disc_test(e["cond"], alias) if strip_paren(e["cond"])["t"] != "Let" else []
             if d:
-                o, thn, els = d
-                out.append(("test", o, e["cond"], dict(regions)))
-                r1 = dict(regions)
-                if thn:
-                    r1[o] = thn
-                visit(e["then"], r1, fn, out)
-                r2 = dict(regions)
-                if els:
-                    r2[o] = els
+                r1, r2 = dict(regions), dict(regions)
+                for o, t_, f_ in d:
+                    out.append(("test", o, e["cond"], dict(regions)))
+                    r1 = narrow(r1, o, t_)
+                    r2 = narrow(r2, o, f_)
+                visit(e["then"], r1, fn, out, alias)
                 if e["else"] is not None:
-                    visit(e["else"], r2, fn, out)
+                    visit(e["else"], r2, fn, out, alias)
                 return
         if t == "Match":
-            o = disc_match(e)
+            o = disc_match(e, alias)
             if o:
                 out.append(("test", o, e["expr"], dict(regions)))
+                seen = set()
                 for arm in e["arms"]:
                     n = arm["pat"]["path"]["name"] if arm["pat"]["t"] in ("PPath",) else (arm["pat"].get("name") if arm["pat"]["t"] == "PIdent" else None)
-                    r = dict(regions)
-                    if n in ("Ordering::Less", "Ordering::Equal", "Less", "Equal"):
-                        r[o] = "inline"
-                    elif n in ("Ordering::Greater", "Greater"):
-                        r[o] = "heap"
-                    visit(arm["body"], r, fn, out)
+                    names = [n]
+                    if arm["pat"]["t"] == "POr":
+                        names = [c_["path"]["name"] if c_["t"] == "PPath" else c_.get("name") for c_ in arm["pat"]["cases"]]
+                    got = frozenset(x.split("::")[-1] for x in names if x and x.split("::")[-1] in ALL)
+                    if arm["pat"]["t"] == "PWild":
+                        got = ALL - seen
+                    seen |= got
+                    r = narrow(regions, o, got) if got and arm.get("guard") is None else dict(regions)
+                    visit(arm["body"], r, fn, out, alias)
                 return
         if t == "Field" and e["member"] in ("arr", "vec"):
             p = payload(e)
@@ -166,6 +243,9 @@ def run_repr_guard(res, ast):
             if o:
                 out.append(("size", o, e, dict(regions)))
                 return
+        if t == "PathExpr" and e["path"]["name"] in alias and len(e["path"]["segs"]) == 1:
+            out.append(("size", alias[e["path"]["name"]], e, dict(regions)))
+            return
         if t == "Call":
             nm = path_name(strip_paren(e["func"]))
             if nm and nm.startswith("Self::") and e["args"]:
@@ -176,7 +256,7 @@ def run_repr_guard(res, ast):
             if k in ("sp", "t"):
                 continue
             if isinstance(v, (dict, list)):
-                visit(v, regions, fn, out)
+                visit(v, regions, fn, out, alias)
 
     per_fn = {}
     for f in fns:
@@ -190,7 +270,7 @@ def run_repr_guard(res, ast):
         if sig["unsafe"] and args and args[0]["ty"]["s"].replace(" ", "") in ("&mutSelf",):
             pname = args[0]["pat"]["name"]
             sites = [c for c in calls_in_region if c[0] == name]
-            if sites and all(c[2].get(c[1]) == "inline" for c in sites):
+            if sites and all(region_name(c[2].get(c[1])) == "inline" for c in sites):
                 pre[(cont, name)] = (pname, "inline")
     n = 0
     for (cont, name), (f, out) in per_fn.items():
@@ -200,7 +280,7 @@ def run_repr_guard(res, ast):
         for kind, owner, node, regions in out:
             if kind == "test":
                 continue
-            reg = regions.get(owner, init.get(owner))
+            reg = region_name(regions.get(owner)) or init.get(owner)
             key = f"{SV}|{cont}::{name}|{kind}|{owner}|{sum(1 for k2, o2, n2, _ in out[:out.index((kind, owner, node, regions))] if k2 == kind and o2 == owner)}"
             w = where(SV, node, f"{cont}::{name}")
             n += 1
@@ -415,13 +495,30 @@ def run_dispose(res, ast):
         lp = loops[0]
         rng = strip_paren(lp["expr"])
         ivar = lp["pat"].get("name")
+        # two idioms: `for i in 0..self.size { arr[i].assume_init_drop() }` and
+        # `for e in &mut arr[..self.size] { e.assume_init_drop() }` (also `arr[0..self.size]`, `.iter_mut()`)
+        by_elem = False
         okr = rng["t"] == "Range" and not rng["closed"] and int_lit(rng["start"]) == 0 and size_of(rng["end"]) == "self"
+        if not okr:
+            it = rng
+            if it["t"] == "MethodCall" and it["method"] == "iter_mut" and not it["args"]:
+                it = strip_paren(it["receiver"])
+            elif it["t"] == "Reference" and it.get("mut"):
+                it = strip_paren(it["expr"])
+            else:
+                it = None
+            if it is not None and it["t"] == "Index":
+                pl = payload(it["expr"])
+                r_ = strip_paren(it["index"])
+                if pl and pl[0] == "arr" and pl[1] == "self" and r_["t"] == "Range" and not r_["closed"] and \
+                        (r_["start"] is None or int_lit(r_["start"]) == 0) and r_["end"] is not None and size_of(r_["end"]) == "self":
+                    okr = by_elem = True
         res.check(okr, "SV-DISPOSE", key0 + "|range", where(SV, lp, name), f"{name}: drop loop range is `{ast.src1(SV, rng)}`, expected 0..self.size")
         paths = block_paths(lp["body"])
         good = len(paths) == 1
         if good:
             acts = events_of(ast, paths[0][1])
-            good = [a[0] for a in acts] == ["assume_init_drop"] and acts[0][1] == ivar
+            good = [a[0] for a in acts] == ["assume_init_drop@elem" if by_elem else "assume_init_drop"] and acts[0][1] == ivar
         res.check(good, "SV-DISPOSE", key0 + "|body", where(SV, lp, name), f"{name}: loop body must drop slot {ivar} exactly once, unconditionally")
         res.evaluations += 1
         # anything between the discriminant test and the loop may only be the needs_drop::<T>() short-cut
